@@ -32,6 +32,16 @@ func init() { register("C14", checkC14) }
 var c14Prefixes = []string{"ab", "in", "or", "do", "if", "no", "an", "en", "fu", "lo", "re", "wh", "tr", "ni", "fo", "el", "th", "un", "br", "go"}
 
 func genC14(t *rapid.T) C14Case {
+	c := genC14Static(t)
+	// the other file of a two-file workspace may be created only after the server has started (a
+	// watched-files Created event): its globals belong to the workspace all the same
+	if len(c.WS.Files) == 2 && rapid.IntRange(0, 2).Draw(t, "otherFileCreatedLate") == 0 {
+		c.WS.Late = 2 - c.File
+	}
+	return c
+}
+
+func genC14Static(t *rapid.T) C14Case {
 	c14Prefix := rapid.SampledFrom(c14Prefixes).Draw(t, "prefix")
 	// the planted identifier is the prefix itself (cursor at its end) or continues after the cursor
 	tail := "q"
@@ -254,6 +264,9 @@ func checkC14(c C14Case, env *Env) *Violation {
 	line, ch := refmodel.PosOf(f.Text, c.Cursor)
 	req := &proto.Request{Cmd: "session", Files: c.WS.protoFiles(), InitOptions: harness.J(harness.Flags(1))}
 	req.Steps = c.WS.openAll()
+	if c.WS.Late > 0 {
+		env.Stats.Class("other-file-created-after-start")
+	}
 	step := len(req.Steps)
 	req.Steps = append(req.Steps, harness.Call("textDocument/completion", harness.J(harness.M{
 		"textDocument": harness.M{"uri": harness.URI(f.Path)}, "position": harness.Pos(line, ch), "context": harness.M{"triggerKind": 1}})))
